@@ -29,6 +29,10 @@ struct Shared {
     std::vector<U64> keys;
     std::map<U64, std::set<U64>> registry; // key -> data words (generation/busy masked) ever stored for it since the last clear
     std::map<U64, int> rawScore;            // data word -> raw stored score (for the ply-shift check)
+    // inserts with an empty move keep the move already stored for the SAME key (documented behaviour of insert()):
+    std::map<U64, std::set<U64>> noMoveRegistry; // key -> data words (move bits zero) stored with an empty move
+    std::map<U64, std::set<U64>> moveBits;       // key -> move bits ever stored for exactly that key
+    long emptyMoveInserts = 0, keptMoveHits = 0;
     long inserts = 0, probes = 0, hits = 0, misses = 0, mateShiftChecks = 0, busySets = 0;
     long counter = 0;
     vf::Result* res = nullptr;
@@ -43,6 +47,8 @@ void doInsert(Shared& S, Rng& r) {
     if (to == from) to = (from + 1) % 64;
     static const int promo[] = {Piece::EMPTY, Piece::EMPTY, Piece::EMPTY, Piece::WQUEEN, Piece::BKNIGHT};
     Move m(Square(from), Square(to), promo[r.below(5)]);
+    const bool emptyMove = r.chance(0.2); // fail-low nodes and stand-pat store no move
+    if (emptyMove) m = Move();
     int type = (int)r.range(1, 3);
     int ply = (int)r.below(60);
     int depth = (int)((c >> 16) & 0xff);
@@ -66,7 +72,8 @@ void doInsert(Shared& S, Rng& r) {
     if (isWinScore(score)) raw = score + ply;
     else if (isLoseScore(score)) raw = score - ply;
     // register BEFORE the store becomes visible (another thread may probe between the two halves)
-    S.registry[key].insert(data);
+    if (emptyMove) { S.noMoveRegistry[key].insert(data); S.emptyMoveInserts++; }
+    else { S.registry[key].insert(data); S.moveBits[key].insert(data & 0xFFFFULL); }
     S.rawScore[data] = raw;
     S.inserts++;
     S.tt->insert(key, m, type, ply, depth, evalScore);
@@ -81,7 +88,18 @@ void doProbe(Shared& S, Rng& r) {
     S.hits++;
     U64 data = e.getData() & ~GEN_BUSY_MASK;
     auto it = S.registry.find(key);
-    if (it == S.registry.end() || !it->second.count(data)) {
+    bool known = it != S.registry.end() && it->second.count(data);
+    if (!known) {
+        // record stored with an empty move: all other fields as one unit; the move is empty or one stored for this very key
+        auto nm = S.noMoveRegistry.find(key);
+        U64 mv = data & 0xFFFFULL, rest = data & ~0xFFFFULL;
+        if (nm != S.noMoveRegistry.end() && nm->second.count(rest) && (mv == 0 || S.moveBits[key].count(mv))) {
+            known = true;
+            if (mv != 0) S.keptMoveHits++;
+            data = rest;
+        }
+    }
+    if (!known) {
         char buf[200];
         snprintf(buf, sizeof buf, "probe(%016llx) returned data %016llx which was never stored for this key (%zu records registered for it)",
                  (unsigned long long)key, (unsigned long long)e.getData(), it == S.registry.end() ? (size_t)0 : it->second.size());
@@ -176,7 +194,7 @@ void runC08(const Scenario& sc, vf::Result& res) {
         int q = (int)r.below(6);
         if (q == 0) {
             tt.clear();
-            S.registry.clear();
+            S.registry.clear(); S.noMoveRegistry.clear(); S.moveBits.clear();
             res.counters["op_clear"]++;
             if (tbResident) {
                 int sc2;
@@ -191,7 +209,7 @@ void runC08(const Scenario& sc, vf::Result& res) {
             U64 ne = sizes[r.below(sizeof(sizes) / sizeof(sizes[0]))];
             if (r.chance(0.3)) ne = (U64)r.range(512, 300000);
             tt.reSize(ne);
-            S.registry.clear();
+            S.registry.clear(); S.noMoveRegistry.clear(); S.moveBits.clear();
             tbResident = false;
             res.counters["op_resize"]++;
         } else if (q == 2) { tt.nextGeneration(); res.counters["op_next_generation"]++; }
@@ -230,6 +248,8 @@ void runC08(const Scenario& sc, vf::Result& res) {
     if (sess::ttIndexViolation(d)) res.violate("C08", "tt-index-out-of-range", d);
     sess::addStatsToResult(res);
     res.counters["tt_inserts"] = S.inserts;
+    res.counters["tt_empty_move_inserts"] = S.emptyMoveInserts;
+    res.counters["probe_hit_with_kept_move"] = S.keptMoveHits;
     res.counters["tt_probes"] = S.probes;
     res.counters["tt_hits"] = S.hits;
     res.counters["tt_misses"] = S.misses;
